@@ -1,7 +1,7 @@
 # Harness objects depend only on the generated public header; binaries are re-linked against the
 # freshly rebuilt library archive of the requested variant.
 REPO ?= /repo
-B    := /verif/build
+B    ?= /verif/build
 GEN  := $(B)/gen
 E    := /verif/engine
 HO   := $(B)/obj
